@@ -7,7 +7,7 @@ only through the interface functions P_* (pyvc/constructs.py)."""
 from pyvc import terms as t, prelude
 from pyvc.terms import I, S
 from pyvc.values import *  # noqa
-from pyvc.contract import Case, rk_dyn
+from pyvc.contract import Case, rk_dyn, rk_container
 from pyvc.exec import LoopSpec
 from .prims import fcontract, S_, generic_raise, buffer_same
 from .classes import path_clause
@@ -194,6 +194,10 @@ def _struct_parse_bad(pre, post):
         kk = fresh('failed_member', t.INT)
         post.st.ghost['loop_k'] = kk
     F = _struct_fold(LE, o0, sl, t.add(kk, t.ONE))
+    c0 = pre.obj('context').addr
+    c1, r = _addr(LE, 'context'), _addr(LE, 'obj')
+    out.append(('members-start-at-the-entry-position', t.eq(LE.get(LE.env['stream']).pos, o0.pos), ('C03',)))
+    out.append(('scope-and-result-are-fresh-distinct-containers', t.and_(t.ge(c1, pre.st.ghost['alloc']), t.ge(r, pre.st.ghost['alloc']), t.ne(c1, r), t.ne(c1, c0)), ('C07', 'C17')))
     out.append(('some-member-fails-in-the-specification-fold', t.and_(t.le(t.ZERO, kk), t.lt(kk, n), t.not_(ps('ps_ok', F))), ('C03',)))
     return out
 
@@ -202,7 +206,7 @@ def register_composites(src):
     define_folds(src)
     fold_lemmas()
     fcontract('Struct', '_parse', [
-        Case('ok', 'return', lambda pre: t.TRUE, ensures=_struct_parse_ok, rkind=rk_dyn, modifies=['stream']),
+        Case('ok', 'return', lambda pre: t.TRUE, ensures=_struct_parse_ok, rkind=rk_container, modifies=['stream']),
         Case('fails', 'raise', lambda pre: t.TRUE, ensures=_struct_parse_bad, modifies=['stream']),
     ], loops={'for sc in self.subcons': LoopSpec(_struct_parse_inv, tags=T, modifies=())}, tags=T)
     register_struct_build(src)
@@ -350,7 +354,7 @@ def _struct_build_ok(pre, post):
 def register_struct_build(src):
     define_build_folds(src)
     fcontract('Struct', '_build', [
-        Case('ok', 'return', lambda pre: t.TRUE, ensures=_struct_build_ok, rkind=rk_dyn, modifies=['stream']),
+        Case('ok', 'return', lambda pre: t.TRUE, ensures=_struct_build_ok, rkind=rk_container, modifies=['stream']),
         Case('fails', 'raise', lambda pre: t.TRUE, modifies=['stream']),
     ], loops={'for sc in self.subcons': LoopSpec(_struct_build_inv, tags=T)}, tags=T, sequential_build=False,
         requires=lambda pre: [('a-supplied-container-already-exists', t.implies(t.app('(_ is VRef)', t.BOOL, pre['obj'].t),
